@@ -109,8 +109,10 @@ class SpotDiagram:
         norm_index = self.optic.wavelengths.primary_index
         centroid = []
         for field_data in self.data:
-            centroid_x = np.mean(field_data[norm_index][0])
-            centroid_y = np.mean(field_data[norm_index][1])
+            # rays stopped by an aperture (intensity 0) do not count
+            lit = field_data[norm_index][2] > 0
+            centroid_x = np.mean(field_data[norm_index][0][lit])
+            centroid_y = np.mean(field_data[norm_index][1][lit])
             centroid.append((centroid_x, centroid_y))
         return centroid
 
@@ -127,7 +129,7 @@ class SpotDiagram:
             geometric_size_field = []
             for wave_data in field_data:
                 r = np.sqrt(wave_data[0]**2 + wave_data[1]**2)
-                geometric_size_field.append(np.max(r))
+                geometric_size_field.append(np.max(r[wave_data[2] > 0]))
             geometric_size.append(geometric_size_field)
         return geometric_size
 
@@ -143,7 +145,7 @@ class SpotDiagram:
             rms_field = []
             for wave_data in field_data:
                 r2 = wave_data[0]**2 + wave_data[1]**2
-                rms_field.append(np.sqrt(np.mean(r2)))
+                rms_field.append(np.sqrt(np.mean(r2[wave_data[2] > 0])))
             rms.append(rms_field)
         return rms
 
